@@ -421,7 +421,7 @@ def shard_eval(ctx, tag, items, want, per=40, workers=8):
 def run(ctx):
     ctx.proofs()
     hx = ctx.go_build("c01")
-    n = 110 if ctx.quick() else 2500
+    n = 110 if ctx.quick() else 2000
     if getattr(ctx, "replay_path", None):
         # re-run the program(s) recorded in a replay file instead of generating
         rp = json.load(open(ctx.replay_path))
@@ -433,7 +433,7 @@ def run(ctx):
         corpus = ctx.jsonl([hx, "run"], timeout=300, input=corpus_lines())
         cases = corpus + ctx.jsonl([hx, "gen", "-seed", str(ctx.seed), "-n", str(n), "-frag", "50"], timeout=600)
     ctx.log("harness produced %d programs (%d from the hand-written corpus / replay)" % (len(cases), len(corpus)))
-    dist = {"static-error": 0, "panic": 0, "timeout": 0, "run": 0, "untranslatable": 0}
+    dist = {"static-error": 0, "panic": 0, "timeout": 0, "run": 0, "untranslatable": 0, "too-large": 0}
     feats = {}
     items = []
     slow = []      # the real run exceeded its step limit (200000): does the reference terminate?
@@ -453,9 +453,15 @@ def run(ctx):
         if k != "run":
             continue
         try:
-            items.append((c, build_case(c)))
+            d = build_case(c)
         except Unsupported as ex:
             dist["untranslatable"] += 1
+            continue
+        if sum(len(v) for v in d.values() if isinstance(v, str)) > 250000:
+            # Coq's parser cannot take terms of this size; counted, never compared silently
+            dist["too-large"] = dist.get("too-large", 0) + 1
+            continue
+        items.append((c, d))
     want = ["ref", "compiled", "code", "vm"]
     rows = shard_eval(ctx, "c01", items, want, per=(20 if ctx.quick() else 40), workers=(8 if ctx.quick() else 10))
     tally = {w: {} for w in want}
